@@ -328,6 +328,40 @@ pub fn run_calls(fsts: &[&[u8]], l: usize) -> Result<(u64, [i64; 2]), String> {
             while c < 1000 && u.next().is_some() { c += 1; }
             c
         })?;
+        measure("difference and symmetric_difference, run to the end and abandoned", 0, bound, &mut || {
+            let mut d = raw::OpBuilder::new().add(&a).add(&b).difference();
+            let mut c = 0u64;
+            while d.next().is_some() { c += 1; }
+            let mut d = raw::OpBuilder::new().add(&b).add(&a).difference();
+            let _ = d.next();
+            drop(d);
+            let mut x = raw::OpBuilder::new().add(&a).add(&b).symmetric_difference();
+            while c < 2_000 && x.next().is_some() { c += 1; }
+            let y = raw::OpBuilder::new().add(&a).add(&b).add(&a).symmetric_difference();
+            drop(y);
+            c
+        })?;
+        // all but the last five items polled, the rest collected: the collection holds five items
+        measure("stream polled to its last five items, then into_byte_vec / into_byte_keys / into_values", 0, bound, &mut || {
+            let n = a.len();
+            let mut c = 0u64;
+            for how in 0..3 {
+                let mut s = a.stream();
+                for _ in 0..n.saturating_sub(5) {
+                    let _ = s.next();
+                }
+                c += match how {
+                    0 => s.into_byte_vec().len(),
+                    1 => s.into_byte_keys().len(),
+                    _ => s.into_values().len(),
+                } as u64;
+            }
+            let mut s = ma.stream();
+            for _ in 0..n.saturating_sub(5) {
+                let _ = s.next();
+            }
+            c + s.into_byte_vec().len() as u64
+        })?;
         measure("two streams advanced alternately", 0, bound, &mut || {
             let (mut s1, mut s2) = (a.stream(), a.range().ge(b"0").into_stream());
             let mut c = 0u64;
@@ -341,7 +375,7 @@ pub fn run_calls(fsts: &[&[u8]], l: usize) -> Result<(u64, [i64; 2]), String> {
             }
         })?;
         std::hint::black_box(acc);
-        Ok((20 * 13, peaks))
+        Ok((22 * 13, peaks))
     })
     .and_then(|x| x)
 }
@@ -525,7 +559,7 @@ pub fn replay(case: &Value) -> Result<String, String> {
 pub fn plan(tier: Tier) -> Plan {
     let mut p = Plan::new("C14", "exploration");
     let thorough = tier.thorough();
-    p.rule = "counting allocator, per-thread. (1) exhaustive in small scopes: for every FST of all subsets of U_ab3 and U_raw2 (values 3i+1), of the fan-out families and of the 256-byte label family: (a) Fst::new/Map::new/Set::new over borrowed bytes and every get/contains_key/contains of the probe closure perform ZERO allocations (allocation count), and so does get_key_into for every value found, its neighbours and 0..7 into a caller buffer of sufficient capacity; (b) stream(), every range (all kind pairs x bound keys of length <= 2; large sets <= 1) and three automaton searches: live heap after EVERY next() <= heap before construction + 4096 + 256*(L+2) + 4*(L+16); (c) union/intersection/difference/symmetric_difference over k = 2..4 FST-backed streams (the FST, its even- and odd-indexed halves, itself): live heap after every next() <= before + 256 + k*(stream bound + 2*max(L,64) + 512). (2) finite ladder (not exhaustive): FSTs of N = 1e4, 1e5 (thorough 1e6) 8-byte keys: full stream/range/search, k = 2..8 way operations over partially overlapping FSTs, and operations over 2-4 identical and over disjoint FSTs (long runs in which nothing is emitted): max extra heap identical (+-256 B) for all N; the same on a wide-node ladder (3-byte keys: root of up to 256 transitions, N/40 distinct non-root nodes of 64 and 40 transitions; N = 10240, 102400, 655360 - the last one a dense root in a file > 64 KiB), with zero-allocation open/lookups on each; on both ladders also is_subset / is_superset / is_disjoint (raw and Set, also against a range stream) and the Debug formatting of Set and Map into a non-allocating sink, traversals abandoned after 1000 items and two streams of one FST advanced alternately: bounded range scans and searches (run to the end, abandoned, never advanced); each call is repeated (8 warm-up calls, then 4 measured ones): peak extra heap bounded and identical for all N, what stays live after a call bounded likewise and NOT growing with repetition (a leak per traversal is growth with use). (3) history independence: peak extra heap of union / intersection / stream / range / search / predicates over 16 tiny sets on a fresh thread, before and after this thread and another one ran them over FSTs with a 65 536-byte key, differs by <= 4 KiB. non-trivial = traversals yielding >= 2 items".into();
+    p.rule = "counting allocator, per-thread. (1) exhaustive in small scopes: for every FST of all subsets of U_ab3 and U_raw2 (values 3i+1), of the fan-out families and of the 256-byte label family: (a) Fst::new/Map::new/Set::new over borrowed bytes and every get/contains_key/contains of the probe closure perform ZERO allocations (allocation count), and so does get_key_into for every value found, its neighbours and 0..7 into a caller buffer of sufficient capacity; (b) stream(), every range (all kind pairs x bound keys of length <= 2; large sets <= 1) and three automaton searches: live heap after EVERY next() <= heap before construction + 4096 + 256*(L+2) + 4*(L+16); (c) union/intersection/difference/symmetric_difference over k = 2..4 FST-backed streams (the FST, its even- and odd-indexed halves, itself): live heap after every next() <= before + 256 + k*(stream bound + 2*max(L,64) + 512). (2) finite ladder (not exhaustive): FSTs of N = 1e4, 1e5 (thorough 1e6) 8-byte keys: full stream/range/search, k = 2..8 way operations over partially overlapping FSTs, and operations over 2-4 identical and over disjoint FSTs (long runs in which nothing is emitted): max extra heap identical (+-256 B) for all N; the same on a wide-node ladder (3-byte keys: root of up to 256 transitions, N/40 distinct non-root nodes of 64 and 40 transitions; N = 10240, 102400, 655360 - the last one a dense root in a file > 64 KiB), with zero-allocation open/lookups on each; on both ladders also is_subset / is_superset / is_disjoint (raw and Set, also against a range stream) and the Debug formatting of Set and Map into a non-allocating sink, traversals abandoned after 1000 items and two streams of one FST advanced alternately: bounded range scans and searches (run to the end, abandoned, never advanced), difference / symmetric_difference, a stream polled down to its last five items and then collected; each call is repeated (8 warm-up calls, then 4 measured ones): peak extra heap bounded and identical for all N, what stays live after a call bounded likewise and NOT growing with repetition (a leak per traversal is growth with use). (3) history independence: peak extra heap of union / intersection / stream / range / search / predicates over 16 tiny sets on a fresh thread, before and after this thread and another one ran them over FSTs with a 65 536-byte key, differs by <= 4 KiB. non-trivial = traversals yielding >= 2 items".into();
     p.assumptions = vec![
         "'for all N' beyond the ladder is not decided; transient per-item allocations that are freed again do not violate the property as stated".into(),
         "memory of user-supplied streams is outside the property".into(),
